@@ -43,6 +43,7 @@ type letter struct {
 	Votes    string // all | none | proposer | allbutone | empty | dup | unknown
 	Proposer int    // index into the validator set; -1 = unknown address
 	Evidence string // "" | dupvote:<i> | unknown | lca:<i> | double:<i>
+	Round    *roundSpec // runtime round: ExecutorCommit transactions built from the current runtime state
 }
 
 type world struct {
@@ -219,7 +220,11 @@ func (b *bundle) buildBlock(l *letter) *chain.Block {
 	}
 	// transactions: nonces from the reference state, counting earlier txs of the same signer in this block
 	used := map[staking.Address]uint64{}
-	for _, t := range l.Txs {
+	txs := l.Txs
+	if l.Round != nil {
+		txs = append(append([]txT{}, txs...), b.roundTxs(l.Round)...)
+	}
+	for _, t := range txs {
 		if t.Raw != nil {
 			blk.Txs = append(blk.Txs, t.Raw)
 			continue
@@ -332,7 +337,11 @@ func (b *bundle) exec(l *letter) (*blockOutcome, error) {
 		for _, tr := range out.results[0].TxResults {
 			codes = append(codes, fmt.Sprintf("%d(%s)", tr.Code, tr.Log))
 		}
-		fmt.Fprintf(os.Stderr, "DEBUG height=%d epoch=%d letter=%q codes=%v panic=%q\n", b.ref().Height, epochOf(b.ref()), l.Name, codes, out.results[0].Panic)
+		rtInfo := ""
+		if rs, q := runtimeState(b.ref()); rs != nil {
+			rtInfo = fmt.Sprintf(" rt{round=%d type=%d suspended=%v committee=%v queue=%d}", rs.LastBlock.Header.Round, rs.LastBlock.Header.HeaderType, rs.Suspended, rs.Committee != nil, len(q))
+		}
+		fmt.Fprintf(os.Stderr, "DEBUG height=%d epoch=%d letter=%q codes=%v panic=%q%s\n", b.ref().Height, epochOf(b.ref()), l.Name, codes, out.results[0].Panic, rtInfo)
 	}
 	return out, nil
 }
